@@ -216,7 +216,7 @@ func c13RawPath(w *World, r *Report, ctxI *types.Interface) {
 			r.Analysed(w.FnName(fn))
 			key := w.FnName(fn) + "|url-literal"
 			pathV, _ := storedField(lit, "Path")
-			rawV, _ := storedField(lit, "RawPath")
+			rawV, rawSt := storedField(lit, "RawPath")
 			if pathV == nil {
 				continue
 			}
@@ -252,6 +252,13 @@ func c13RawPath(w *World, r *Report, ctxI *types.Interface) {
 						desc = strings.Join(pp, ".")
 					}
 					okA, msgA = false, "RawPath is taken from "+desc+" instead of EscapedPath() / the request target: it is empty for paths like /files/100%25, so captures are decoded twice and the entry points disagree"
+				}
+			}
+			if okA && rawSt != nil {
+				for _, ret := range returnsOf(lit.Parent()) {
+					if !dominatesInstr(rawSt, ret) {
+						okA, msgA = false, "RawPath is set on some paths only (as net/url does for its own parse results): where it stays empty the lookup and the capture decoding work on the already decoded path and decode a second time"
+					}
 				}
 			}
 			r.Ob(ri, key+"|rawpath-always-set", lit.Pos(), okA, msgA)
